@@ -145,6 +145,19 @@ def grid_empty(lo, hi, p):
     return not any(lo <= n / scale <= hi for n in range(n0 - 2, n0 + 4))
 
 
+def setup(ctx):
+    """A second generator with its own alphabets and cap, built and used before anything else (public API): the default
+    generator behind fake() must be unaffected by it."""
+    from ..common import mod
+    G = mod("d42.generation")
+    rg = G.RegexGenerator(G.Random(), alphabet={"letters": "ab", "digits": "01", "word": "xy_"}, max_repeat=2)
+    rg.generate("a.\\d\\w[^a]b*")
+    g = G.Generator(G.Random(), rg)
+    from d42 import schema
+    schema.list(schema.str.regex("\\d\\w")).__accept__(g)
+    ctx.count("foreign_generators_built")
+
+
 def run_case(ctx, rng, case):
     d = derive(ctx, rng, case)
     if d is None:
